@@ -304,7 +304,9 @@ Qed.
    already holds the entry by log matching).  The invariant of Raft/RaftInv.v would have to carry
    the configuration with every recorded quorum (votes of a term, acknowledgements of an entry,
    "never" quorums).  Not done, except the leader-local half of (a): C15_cc_pending_discipline and
-   C15_cc_conf_proposal_fresh below.  Until then schedules with arbitrary chains of changes are
+   C15_cc_conf_proposal_fresh below, and the two preservation lemmas the global half needs at the
+   append steps (RaftCCInv.cc_ok_pending for the leader, RaftCCInv.append_cc_ok for a follower,
+   stated with the hypotheses the invariant supplies at M_append).  Until then schedules with arbitrary chains of changes are
    validated against the model and monitored (no violation seen), not proved. *)
 
 Theorem C15_conf_step_quorums_intersect : forall c op c', wfc c -> apply_cc c op = Some c' ->
